@@ -66,6 +66,7 @@ type w1Path struct {
 	Forward        []string `json:"forward,omitempty"`
 	Hooks          []string `json:"hooks,omitempty"` // init initR demand demandR undemand avail availR unavail online onlineR offline
 	Record         bool     `json:"record,omitempty"`
+	Always         bool     `json:"always_available,omitempty"` // alwaysAvailable with the two audio tracks the publishers send
 }
 
 type w1Version struct {
@@ -216,6 +217,21 @@ func (w *w1World) Gen(rng *rand.Rand, property, tier string) (any, simrt.Sched) 
 	for _, n := range names {
 		v0.Paths = append(v0.Paths, mkPath(n))
 	}
+	always := false
+	if (focus == "C16" || focus == "C17") && rng.Intn(2) == 0 {
+		// the stream outlives its publishers: an offline filler runs whenever nobody publishes
+		always = true
+		p := &v0.Paths[0]
+		p.Always, p.Source, p.SrcTag, p.OnDemand = true, "publisher", "", false
+		p.Override = rng.Intn(4) != 0
+		var hk []string
+		for _, h := range p.Hooks {
+			if h != "demand" && h != "demandR" && h != "undemand" {
+				hk = append(hk, h)
+			}
+		}
+		p.Hooks = hk
+	}
 	b.Versions = []w1Version{v0}
 
 	// further versions: mutate the previous one
@@ -343,6 +359,29 @@ func (w *w1World) Gen(rng *rand.Rand, property, tier string) (any, simrt.Sched) 
 		}
 		return w1Pick(rng, targets...)
 	}
+	if always {
+		// a publisher that writes in a long burst and a rival that arrives at the instant of one of
+		// its writes (the replacement happens while a write of the replaced publisher is in progress)
+		ms := w1Pick[int64](rng, 1, 1, 1, 2)
+		st := w1Pick[int64](rng, 10, 100)
+		a := w1Actor{Kind: "pub", Path: "s1", Shape: "1phase", LateWrites: int64(rng.Intn(4)), StartMs: st,
+			User: "admin", Pass: "adminpw", IP: "127.0.0.1"}
+		r := w1Actor{Kind: "pub", Path: "s1", Shape: "1phase", LateWrites: int64(rng.Intn(4)),
+			User: "admin", Pass: "adminpw", IP: "127.0.0.1"}
+		// they take turns: each session starts somewhere inside the other's burst
+		n := int64(60 + rng.Intn(60))
+		r.StartMs = st + ms*int64(5+rng.Intn(int(n)-10))
+		rounds := 1 + rng.Intn(3)
+		for k := 0; k < rounds; k++ {
+			a.Ops = append(a.Ops, w1Op{Op: "session", N: n, Ms: ms})
+			r.Ops = append(r.Ops, w1Op{Op: "session", N: n, Ms: ms})
+			// after being replaced (or done) come back inside the rival's burst
+			a.Ops = append(a.Ops, w1Op{Op: "sleep", Ms: ms * int64(5+rng.Intn(int(n)/2))})
+			r.Ops = append(r.Ops, w1Op{Op: "sleep", Ms: ms * int64(5+rng.Intn(int(n)/2))})
+		}
+		b.Actors = append(b.Actors, a, r)
+		npub = rng.Intn(2)
+	}
 	for i := 0; i < npub; i++ {
 		a := w1Actor{Kind: "pub", Path: tgt(), Shape: w1Pick(rng, "2phase", "2phase", "1phase"),
 			LateWrites: int64(rng.Intn(4))}
@@ -406,6 +445,26 @@ func (w *w1World) Gen(rng *rand.Rand, property, tier string) (any, simrt.Sched) 
 	b.TailMs = 10000 + 5000 + 10000 + 2000
 
 	sched := simrt.DefaultSched(rng)
+	// where the "starve" strategy prefers to delay goroutines: the files of the mechanism under check
+	switch focus {
+	case "C16", "C17":
+		sched.Focus = []string{"stream/sub_stream", "stream/stream.go", "stream/reader.go"}
+	case "C18", "C19", "C20", "C03":
+		sched.Focus = []string{"core/path.go", "core/path_manager.go"}
+	case "C15":
+		sched.Focus = []string{"core/path_manager.go", "core/path.go"}
+	case "C39":
+		sched.Focus = []string{"forward/"}
+	}
+	if always {
+		sched.MaxSteps = 120000
+		if rng.Intn(2) == 0 {
+			sched.Strategy = "starve"
+			if sched.StallProb == 0 {
+				sched.StallProb = 0.002
+			}
+		}
+	}
 	return b, sched
 }
 
@@ -503,6 +562,11 @@ func (h *w1Harness) renderYAML(v w1Version) string {
 			sb.WriteString("    source: redirect\n    sourceRedirect: rtsp://other:8554/x\n")
 		default:
 			fmt.Fprintf(&sb, "    overridePublisher: %v\n", p.Override)
+			if p.Always {
+				sb.WriteString("    alwaysAvailable: yes\n    alwaysAvailableTracks:\n")
+				sb.WriteString("    - codec: G711\n      sampleRate: 8000\n      channelCount: 1\n      muLaw: yes\n")
+				sb.WriteString("    - codec: LPCM\n      sampleRate: 8000\n      channelCount: 1\n")
+			}
 		}
 		if p.MaxReaders != 0 {
 			fmt.Fprintf(&sb, "    maxReaders: %d\n", p.MaxReaders)
@@ -812,6 +876,11 @@ func (h *w1Harness) readerSession(name string, r *w1Reader, a *w1Actor, ar defs.
 				pl = v
 			}
 			if len(pl) != 8 {
+				if res.Path.SafeConf().AlwaysAvailable {
+					// filler of the offline sub stream (silence), not a published unit
+					simrt.Rec("rd.filler", name, "", int64(len(pl)), int64(fm), 0)
+					return nil
+				}
 				simrt.Violate("C17", "payload-modified", "reader %s got a payload of %d bytes on format %d", name, len(pl), fm)
 				return nil
 			}
